@@ -45,6 +45,11 @@ QUICK_EXAMPLES = [
     ('failure_test_no_simu_time.d.res', 200, 10),
     ('greenband_exploit_T410_contrib.d.res.ceav5', 1200, 15),
     ('failure_noaopt_uniform_sources.d.res', 200, 20),
+    # the three ways the grammar layer fails: ParseException, SpectrumDictBuilderException,
+    # MeshDictBuilderException (complete listing always goes through the parser)
+    ('failure_test_bad_resp_name.d.res', 300, 6),
+    ('failure_test_no_a_opt.d.res', 300, 6),
+    ('tungstene_missing_vals.d.res', 40000, 2),
 ]
 
 
@@ -133,7 +138,10 @@ def grammar_obs(block, scan_time):
                                                  MeshDictBuilderException)
     try:
         res = t4gram.parseString(block).asList()
-    except (ParseException, SpectrumDictBuilderException, MeshDictBuilderException):
+    except (ParseException, SpectrumDictBuilderException, MeshDictBuilderException, IndexError):
+        # the classes _parse_listing_worker is documented to turn into ParserException
+        # (IndexError: raised by the array builders inside a parse action; pyparsing lets
+        # it escape on the first call of the action in a process)
         return {'raise': 0}
     except Hang:
         raise
@@ -437,6 +445,16 @@ def edition_variants(rng, repo):
     v2 = head + [' batch number : 100'] + eds[0] + [' batch number : 150'] + mid \
         + [' batch number : 200'] + eds[1] + tail
     out.append(('variant_three', '\n'.join(v2).encode()))
+    # 3/4: batch 100 edited twice with the same flag and another time: the scanner keeps the
+    #    first time, the block is the second one -> time inconsistency (ParserException), which
+    #    is only a warning when a PARTIAL EDITION is announced afterwards
+    again = list(eds[0])
+    again[-1] = ' simulation time (s) : %d' % rng.randint(113, 216)
+    v3 = head + [' batch number : 100'] + eds[0] + [' batch number : 100'] + again + tail
+    out.append(('variant_retimed', '\n'.join(v3).encode()))
+    v4 = head + [' batch number : 100'] + eds[0] + [' batch number : 100'] + again \
+        + [' PARTIAL EDITION'] + tail
+    out.append(('variant_retimed_partial', '\n'.join(v4).encode()))
     return out
 
 
@@ -636,10 +654,14 @@ def build_jobs(ctx):
             offs = key_line_offsets(data, stride, rng, per_kind=2)
             if name.startswith('ELECTRON'):
                 offs = sorted(set(offs) | {9932, 10547})      # corpus: the reproduced defects
-            poffs = sorted(rng.sample(offs, min(npar, len(offs))))
+            poffs = sorted(set(rng.sample(offs, min(npar, len(offs)))) | {len(data)})
         else:
-            offs = list(range(0, len(data) + 1))
+            if len(data) <= 40000:
+                offs = list(range(0, len(data) + 1))
+            else:       # every byte of the lines the scanner interprets, every 5th elsewhere
+                offs = key_line_offsets(data, 5, rng)
             poffs = list(range(rng.randrange(64), len(data), 64)) + [len(data)]
+            offs = sorted(set(offs) | set(poffs))
         jobs.append((wdir, name.replace('.', '_'), data, offs, poffs, watchdog))
         ctx.count('example_listings')
     # corpus: the defects of the pinned tree
